@@ -759,7 +759,8 @@ fn generate_cases(rng: &mut Rng, thorough: bool, safe_depth: &BTreeMap<String, u
     for (index, snippet) in luagen::SNIPPETS.iter().enumerate() {
         let boundaries = luagen::token_boundaries(snippet);
         for (k, at) in boundaries.iter().enumerate() {
-            let chars: Vec<&str> = if thorough { luagen::MULTIBYTE_CHARS.to_vec() } else { vec![luagen::MULTIBYTE_CHARS[(k + index) % luagen::MULTIBYTE_CHARS.len()]] };
+            let after_backslash = *at > 0 && snippet.as_bytes()[*at - 1] == b'\\';
+            let chars: Vec<&str> = if thorough || after_backslash { luagen::MULTIBYTE_CHARS.to_vec() } else { vec![luagen::MULTIBYTE_CHARS[(k + index) % luagen::MULTIBYTE_CHARS.len()]] };
             for c in chars {
                 let mut text = snippet.to_string();
                 text.insert_str(*at, c);
@@ -841,7 +842,7 @@ fn generate_cases(rng: &mut Rng, thorough: bool, safe_depth: &BTreeMap<String, u
     }
     // 11. literals spanning several lines (backtick parts with `\\`+newline / `\\z`+newline, quoted
     //     and long strings): each generator without rules, then every rule alone
-    for (index, text) in luagen::MULTILINE_TEXTS.iter().enumerate() {
+    for (index, text) in luagen::MULTILINE_TEXTS.iter().chain(luagen::BACKSLASH_SEGMENT_TEXTS.iter()).enumerate() {
         let mut configs: Vec<String> = Vec::new();
         for generator in luagen::GENERATORS {
             for span in luagen::SPANS {
@@ -859,6 +860,14 @@ fn generate_cases(rng: &mut Rng, thorough: bool, safe_depth: &BTreeMap<String, u
             configs.push(luagen::configuration(&[luagen::rule_entry(rng, rule)], generator, 80, false));
         }
         cases.push(Case { class: "multiline-literals".to_owned(), text: text.to_string(), files: Vec::new(), configs });
+    }
+    // 12. a backslash followed by one representative of every character class, in every string
+    //     form, through both parser modes (and, when the text parses, each generator)
+    for after in luagen::AFTER_BACKSLASH {
+        for text in luagen::escape_programs(after) {
+            let configs = luagen::GENERATORS.iter().map(|g| luagen::configuration(&[], g, 80, false)).collect();
+            cases.push(Case { class: "escape-classes".to_owned(), text, files: Vec::new(), configs });
+        }
     }
     // 9. batches with one bad member: errors are values naming the file, the rest is written
     for _ in 0..(25 * scale) {
